@@ -51,11 +51,16 @@ Target_edit == {Nil} \cup DirsOver({"a"}, {F2, F("d1", TRUE), L2} \cup DirsOver(
 Disk_nest == DirsOver({"a"}, DirsOver({"c", "d"}, {DF1, L("t1")} \cup DirsOver({"e"}, {DF1, U})))
 Target_nest == DirsOver({"a"}, {F2, D(<<>>)})
 
-ShapeNames == {"wide", "small", "two", "spine", "edit", "nest"}
+\* "exec": executable and plain files at two levels, content / executability changes (C18 on the filesystem)
+DF1x == DF("d1", TRUE, V0)
+Disk_exec == DirsOver({"a"}, {DF1x, DF1} \cup DirsOver({"c"}, {DF1x, DF1}))
+Target_exec == DirsOver({"a"}, {F("d2", TRUE), F2, F("d1", TRUE), F("d1", FALSE)} \cup DirsOver({"c"}, {F("d2", TRUE), F2}))
+
+ShapeNames == {"wide", "small", "two", "spine", "edit", "nest", "exec"}
 DiskTreesOf(shape) == CASE shape = "wide" -> Disk_wide [] shape = "small" -> Disk_small [] shape = "two" -> Disk_two
-                        [] shape = "spine" -> Disk_spine [] shape = "edit" -> Disk_edit [] shape = "nest" -> Disk_nest
+                        [] shape = "spine" -> Disk_spine [] shape = "edit" -> Disk_edit [] shape = "nest" -> Disk_nest [] shape = "exec" -> Disk_exec
 TargetTreesOf(shape) == CASE shape = "wide" -> Target_wide [] shape = "small" -> Target_small [] shape = "two" -> Target_two
-                          [] shape = "spine" -> Target_spine [] shape = "edit" -> Target_edit [] shape = "nest" -> Target_nest
+                          [] shape = "spine" -> Target_spine [] shape = "edit" -> Target_edit [] shape = "nest" -> Target_nest [] shape = "exec" -> Target_exec
 
 \* ------------------------------------------------------------ external edits
 \* Single-component edits of a file ("differs from what the scan recorded", each
